@@ -614,11 +614,11 @@ def run(ctx, n):
                 port_shared(ctx, drv, ctx.seed, idx)
             except codec.OutOfUniverse:
                 ctx.cov['out_of_domain'] += 1
-    n_scen = (len(CORPUS) + 3) if not thorough else (len(CORPUS) + 40)
-    explore(ctx, n_scen, per_line=2 if not thorough else 6, two=60 if not thorough else 1500,
+    n_scen = (len(CORPUS) + 3) if not thorough else (len(CORPUS) + 20)
+    explore(ctx, n_scen, per_line=2 if not thorough else 4, two=60 if not thorough else 1000,
             stress_reps=6 if not thorough else 60)
     if thorough:
-        explore(ctx, len(CORPUS) + 6, per_line=2, two=300, stress_reps=0, wide=True)
+        explore(ctx, len(CORPUS) + 2, per_line=2, two=200, stress_reps=0, wide=True)
     Validator.clear_caches()
     real.clear_global_state()
     after = footprint()
